@@ -188,7 +188,11 @@ def check(run, ctx):
     lowered = any(isinstance(n, ast.Call) and call_name(n) in ("lower", "casefold") and "suffix" in ast.unparse(n) for n in ast.walk(dl.node))
     (run.ok(U3, "detect_language suffix.lower()") if lowered else run.finding(U3, "detect_language", "no-lower", "the suffix is not lower-cased before the EXTENSION_MAP lookup (upper-case extensions would be 'unknown')", dl.loc))
     sb = repo.func("src.orchestrator.language_detector._parse_shebang_language")
-    ok = any(isinstance(n, ast.Compare) and isinstance(n.left, ast.Constant) and n.left.value == "python" for n in ast.walk(sb.node)) and any(isinstance(n, ast.Call) and call_name(n) == "startswith" and n.args and isinstance(n.args[0], ast.Constant) and n.args[0].value == "#!" for n in ast.walk(sb.node))
+    # literals may be written in place or hoisted to module constants: compare folded values
+    def fv_(e):
+        v_ = repo.fold(sb.module, e)
+        return v_ if isinstance(v_, str) else None
+    ok = any(isinstance(n, ast.Compare) and len(n.ops) == 1 and isinstance(n.ops[0], ast.In) and fv_(n.left) == "python" for n in ast.walk(sb.node)) and any(isinstance(n, ast.Call) and call_name(n) == "startswith" and n.args and fv_(n.args[0]) == "#!" for n in ast.walk(sb.node))
     (run.ok(U3, "shebang python") if ok else run.finding(U3, "_parse_shebang_language", "shebang", "python shebang detection changed", sb.loc))
     # languages a dispatch compares against must be Language members
     lang_cls = repo.cls("src.core.constants.Language")
